@@ -10,6 +10,7 @@ package main
 import (
 	"bufio"
 	"encoding/base64"
+	"encoding/json"
 	"fmt"
 	"io"
 	"net"
@@ -106,7 +107,16 @@ func startPlugin() (net.Listener, error) {
 			if strings.Contains(string(b), "slow") {
 				time.Sleep(time.Duration(atomic.LoadInt64(&slowPlugin)) * time.Millisecond)
 			}
+			// the plugin hands the content back (unchange=false): frps adopts what the plugin returned,
+			// which must be what the client sent — incl. the group key
+			var in struct {
+				Content json.RawMessage `json:"content"`
+			}
 			w.Header().Set("Content-Type", "application/json")
+			if json.Unmarshal(b, &in) == nil && len(in.Content) > 0 {
+				_, _ = w.Write([]byte(`{"reject":false,"unchange":false,"content":` + string(in.Content) + `}`))
+				return
+			}
 			_, _ = io.WriteString(w, `{"reject":false,"unchange":true}`)
 		}))
 	}()
@@ -348,8 +358,11 @@ func sysScenario(s *hx.Server, kind, rep, vhostPort, muxPort int, dist map[strin
 	if _, ok, err := join(2, 1, rport); err != nil || !ok {
 		return "", nil, fmt.Errorf("second member could not join: %v", err)
 	}
-	if _, _, err := join(3, 9, rport); err != nil { // wrong key
+	if _, ok, err := join(3, 9, rport); err != nil { // wrong key
 		return "", nil, err
+	} else if ok {
+		fails = append(fails, map[string]any{"key": "C13:sys:" + kn + ":wrong-key-join-accepted",
+			"what": "whole frps (NewProxy plugin that returns the content): a proxy presenting a wrong group key joined the " + kn + " group", "case": group})
 	}
 	if kind == 0 {
 		if _, _, err := join(4, 1, hx.FreePort(sysAddr)); err != nil { // other port
@@ -423,6 +436,146 @@ func sysScenario(s *hx.Server, kind, rep, vhostPort, muxPort int, dist map[strin
 		mem.client.Close()
 	}
 	time.Sleep(300 * time.Millisecond)
+
+	if kind != 1 {
+		// two sessions announce a tcp / tcpmux group proxy with the SAME name at once: both join the group
+		// (Run), the proxy manager admits only one; the other is refused and its listener must leave the
+		// group again.  When the admitted one's session drops, the endpoint must be gone.
+		gd := gnum + 50
+		groupD := fmt.Sprintf("sys-%s-dup-g%d", kn, gnum)
+		domainD := fmt.Sprintf("dup%s%d.example.com", kn, gnum)
+		name := fmt.Sprintf("sys-%s-%d-dup", kn, rep)
+		portD := 0
+		parD := []int{1}
+		if kind == 0 {
+			portD = hx.FreePort(sysAddr)
+		} else {
+			parD = []int{gd, 0, 0, 0}
+		}
+		resD := resOf(kind, parD, portD)
+		hold, arrived := make(chan struct{}), make(chan struct{}, 1)
+		var once int32
+		verifhook.Install(func(point, key string) {
+			if point == "ctl.regproxy.after_run" && key == name && atomic.CompareAndSwapInt32(&once, 0, 1) {
+				arrived <- struct{}{}
+				<-hold
+			}
+		})
+		mk := func(label string) (*hx.Client, error) {
+			e, err := hx.StartEcho(sysAddr, label)
+			if err != nil {
+				return nil, err
+			}
+			base := v1.ProxyBaseConfig{Name: name, LoadBalancer: v1.LoadBalancerConfig{Group: groupD, GroupKey: kname(1)},
+				ProxyBackend: v1.ProxyBackend{LocalIP: sysAddr, LocalPort: e.Port()}}
+			var pc v1.ProxyConfigurer
+			if kind == 0 {
+				base.Type = "tcp"
+				pc = &v1.TCPProxyConfig{ProxyBaseConfig: base, RemotePort: portD}
+			} else {
+				base.Type = "tcpmux"
+				pc = &v1.TCPMuxProxyConfig{ProxyBaseConfig: base, DomainConfig: v1.DomainConfig{CustomDomains: []string{domainD}}, Multiplexer: "httpconnect"}
+			}
+			return s.StartClient([]v1.ProxyConfigurer{pc}, nil, nil)
+		}
+		cA, err := mk("M30;")
+		if err != nil {
+			verifhook.Install(nil)
+			return "", nil, err
+		}
+		select {
+		case <-arrived:
+		case <-time.After(5 * time.Second):
+			verifhook.Install(nil)
+			close(hold)
+			return "", nil, fmt.Errorf("duplicate-name scenario (%s): first registration did not reach the gate", kn)
+		}
+		cB, err := mk("M31;")
+		if err != nil {
+			verifhook.Install(nil)
+			close(hold)
+			return "", nil, err
+		}
+		okB, etB := waitProxy(cB, name, 5*time.Second)
+		close(hold)
+		verifhook.Install(nil)
+		okA, etA := waitProxy(cA, name, 5*time.Second)
+		if okA == okB || etA == "timeout" || etB == "timeout" {
+			cA.Close()
+			cB.Close()
+			return "", nil, fmt.Errorf("duplicate-name scenario (%s): first running=%v (%s), second running=%v (%s)", kn, okA, etA, okB, etB)
+		}
+		winner, loser, wlabel := cB, cA, 31
+		if okA {
+			winner, loser, wlabel = cA, cB, 30
+		}
+		// model: the loser joined and was taken back, the winner joined and stays
+		jl := len(reqs)
+		reqs = append(reqs, Req{Op: "join", M: 30, Group: gd, Key: 1, Par: parD, Port: portD, Mux: true, OS: true, Lis: true})
+		thr = append(thr, [2]int{sLeft, 0})
+		jw := len(reqs)
+		reqs = append(reqs, Req{Op: "join", M: 31, Group: gd, Key: 1, Par: parD, Port: portD, Mux: true, OS: true, Lis: true})
+		thr = append(thr, [2]int{sLeft, 0})
+		reqs = append(reqs, Req{Op: "leave", JT: jl})
+		thr = append(thr, [2]int{sDone, 0})
+		time.Sleep(150 * time.Millisecond)
+		dial := func() (refused bool, who int) {
+			who = -1
+			if kind == 0 {
+				c, err := net.DialTimeout("tcp", net.JoinHostPort(sysAddr, fmt.Sprint(portD)), time.Second)
+				if err != nil {
+					return true, -1
+				}
+				defer c.Close()
+				_ = c.SetReadDeadline(time.Now().Add(2 * time.Second))
+				return false, readLabel(bufio.NewReader(c))
+			}
+			c, err := net.DialTimeout("tcp", net.JoinHostPort(sysAddr, fmt.Sprint(muxPort)), time.Second)
+			if err != nil {
+				return false, -1
+			}
+			defer c.Close()
+			_ = c.SetDeadline(time.Now().Add(2 * time.Second))
+			_, _ = io.WriteString(c, "CONNECT "+domainD+":80 HTTP/1.1\r\nHost: "+domainD+":80\r\n\r\n")
+			rd := bufio.NewReader(c)
+			resp, err := http.ReadResponse(rd, nil)
+			if err != nil || resp.StatusCode != 200 {
+				return true, -1
+			}
+			return false, readLabel(rd)
+		}
+		record := func(refused bool, who int, expectLive bool) {
+			r := Req{Op: "conn", R: resD}
+			switch {
+			case refused:
+				thr = append(thr, [2]int{sCRefused, 0})
+			case who == wlabel:
+				thr = append(thr, [2]int{sCTo, jw})
+				r.Who = jw
+			default:
+				thr = append(thr, [2]int{sCStranded, 0})
+				r.Who = -1
+			}
+			good := (expectLive && !refused && who == wlabel) || (!expectLive && refused)
+			if !good {
+				fails = append(fails, map[string]any{"key": "C13:sys:" + kn + ":refused-duplicate-stays-member",
+					"what": fmt.Sprintf("whole frps: two sessions announced the %s group proxy %s at once, one was refused by the proxy manager; afterwards a connection to the group (live member expected: %v) was refused=%v / answered by backend M%d", kn, name, expectLive, refused, who),
+					"case": groupD})
+			}
+			reqs = append(reqs, r)
+		}
+		rf, who := dial()
+		record(rf, who, true)
+		winner.Close() // the admitted member's session drops: the group has no member left
+		time.Sleep(600 * time.Millisecond)
+		reqs = append(reqs, Req{Op: "leave", JT: jw})
+		thr = append(thr, [2]int{sDone, 0})
+		rf, who = dial()
+		record(rf, who, false)
+		loser.Close()
+		dist["sys-duplicate-name-race:"+kn]++
+		time.Sleep(200 * time.Millisecond)
+	}
 
 	if kind == 1 {
 		// two sessions announce an http group proxy with the SAME name at once: the first has joined the
